@@ -44,8 +44,50 @@ var externals = map[string]externalFn{}
 // harnessFns is keyed by the unqualified name of a body-less in-package function.
 var harnessFns = map[string]externalFn{}
 
+const osfsPkg = "github.com/elastic/go-txfile/internal/vfs/osfs"
+const txfilePkg = "github.com/elastic/go-txfile"
+
+// osfsHook redirects the OS-facing methods of osfs.File (and osfs.Open) to
+// harness functions verifOsfs<Name> in package txfile, if the harness defines them.
+func osfsHook(fn *ssa.Function, name string) externalFn {
+	var hook string
+	switch {
+	case name == osfsPkg+".Open":
+		hook = "verifOsfsOpen"
+	case strings.HasPrefix(name, "(*"+osfsPkg+".File)."):
+		m := strings.TrimPrefix(name, "(*"+osfsPkg+".File).")
+		switch m {
+		case "Size", "Truncate", "MMap", "MUnmap", "Sync":
+			hook = "verifOsfs" + m
+		}
+	case strings.HasPrefix(name, "(*os.File)."):
+		// promoted methods of the embedded *os.File are called directly
+		switch m := strings.TrimPrefix(name, "(*os.File)."); m {
+		case "ReadAt", "WriteAt", "Close", "Name":
+			hook = "verifOsfs" + m
+		}
+	}
+	if hook == "" {
+		return nil
+	}
+	pkg := fn.Prog.ImportedPackage(txfilePkg)
+	if pkg == nil {
+		return nil
+	}
+	target := pkg.Func(hook)
+	if target == nil {
+		return nil
+	}
+	return func(fr *frame, args []value) value {
+		return call(fr.i, fr, token.NoPos, target, args)
+	}
+}
+
 func lookupExternal(fn *ssa.Function, name string) externalFn {
 	if e := externals[name]; e != nil {
+		return e
+	}
+	if e := osfsHook(fn, name); e != nil {
 		return e
 	}
 	if fn.Blocks == nil && strings.HasPrefix(fn.Name(), "verif") {
@@ -168,6 +210,14 @@ func init() {
 			}
 			fr.i.steps += int64(len(a) / 8)
 			return r
+		},
+		"verifNewOSFile": func(fr *frame, args []value) value {
+			// a fresh, distinguishable *os.File (never dereferenced by interpreted code)
+			v := zero(mustDeref(fr.fn.Signature.Results().At(0).Type()))
+			return &v
+		},
+		"verifFlockHeld": func(fr *frame, args []value) value {
+			return fr.i.flocks()[args[0].(string)] != nil
 		},
 		"verifNativeSleep": func(fr *frame, args []value) value { return nil },
 		"verifReach": func(fr *frame, args []value) value {
@@ -373,6 +423,39 @@ func init() {
 			}
 			return nil
 		},
+		// advisory file lock: one Boolean per path (the OS contract of flock)
+		"(*github.com/gofrs/flock.Flock).TryLock": func(fr *frame, args []value) value {
+			i := fr.i
+			p := args[0].(*value)
+			path := flockPath(fr, p)
+			held := i.flocks()
+			if held[path] != nil {
+				return tuple{false, iface{}}
+			}
+			held[path] = p
+			return tuple{true, iface{}}
+		},
+		"(*github.com/gofrs/flock.Flock).Lock": func(fr *frame, args []value) value {
+			i := fr.i
+			p := args[0].(*value)
+			path := flockPath(fr, p)
+			held := i.flocks()
+			if held[path] != nil {
+				i.block(func() bool { return held[path] == nil }, "flock")
+			}
+			held[path] = p
+			return iface{}
+		},
+		"(*github.com/gofrs/flock.Flock).Unlock": func(fr *frame, args []value) value {
+			i := fr.i
+			p := args[0].(*value)
+			path := flockPath(fr, p)
+			held := i.flocks()
+			if held[path] == p {
+				delete(held, path)
+			}
+			return iface{}
+		},
 		"runtime.Gosched": func(fr *frame, args []value) value {
 			fr.i.block(nil, "Gosched")
 			return nil
@@ -380,6 +463,20 @@ func init() {
 	} {
 		externals[k] = v
 	}
+}
+
+func flockPath(fr *frame, p *value) string {
+	t := mustDeref(fr.fn.Signature.Recv().Type())
+	return (*p).(structure)[fieldIndex(t, "path")].(string)
+}
+
+func (i *Interp) flocks() map[string]*value {
+	m, _ := i.extra["flocks"].(map[string]*value)
+	if m == nil {
+		m = map[string]*value{}
+		i.extra["flocks"] = m
+	}
+	return m
 }
 
 func fmtArg0(args []value) string {
